@@ -13,7 +13,8 @@ import (
 
 type vprepared struct {
 	Idx   int      `json:"idx"`
-	Root  string   `json:"root"`
+	Root  string   `json:"root"` // as spelled by the invocation (possibly through a symbolic link)
+	Real  string   `json:"real"` // without symbolic links
 	Cwd   string   `json:"cwd"`
 	Args  []string `json:"args"`
 	Repos []string `json:"repos"`
@@ -49,6 +50,14 @@ func TestVerifC14Git(t *testing.T) {
 		if err := os.Chdir(p.Cwd); err != nil {
 			t.Fatal(err)
 		}
+		os.Setenv("PWD", p.Cwd) // as a shell does: the working directory as spelled
+		norm := func(s string) string {
+			s = strings.Replace(s, p.Root, "/R", 1)
+			if p.Real != "" && p.Real != p.Root {
+				s = strings.Replace(s, p.Real, "/R.real", 1)
+			}
+			return s
+		}
 		repo, err := FindGitRepo(p.Args...)
 		switch {
 		case err != nil:
@@ -56,7 +65,7 @@ func TestVerifC14Git(t *testing.T) {
 		case repo == "":
 			rec["repo"] = "!none"
 		default:
-			rec["repo"] = strings.Replace(repo, p.Root, "/R", 1)
+			rec["repo"] = norm(repo)
 		}
 		status := map[string][]string{}
 		for _, r := range p.Repos {
@@ -68,7 +77,7 @@ func TestVerifC14Git(t *testing.T) {
 			if keys == nil {
 				keys = []string{}
 			}
-			status[strings.Replace(r, p.Root, "/R", 1)] = keys
+			status[norm(r)] = keys
 		}
 		rec["status"] = status
 		b, _ := json.Marshal(rec)
